@@ -205,7 +205,7 @@ Definition stream_event (e : event) : bool :=
 
 Lemma frame_stream_event r e : stream_event e = true -> frame r (step r e).
 Proof.
-  destruct e as [c pe cl|c|s p|s|s|s|p s]; cbn [stream_event]; try discriminate; intros _;
+  destruct e as [c pe cl|c|s p|s|s|s|p s|bp]; cbn [stream_event]; try discriminate; intros _;
     unfold step, step_with.
   - destruct (get s (sw r)); [apply frame_refl|]. destruct (get_peer r p); apply frame_with_sw.
   - destruct (get s (sw r)) as [[p pe|p pe f|p pe| |]|]; try apply frame_refl.
@@ -220,6 +220,7 @@ Proof.
   - destruct (get s (sw r)) as [[p pe|p pe f|p pe| |]|]; try apply frame_refl;
       (eapply frame_trans; [apply frame_remove_stream|apply frame_with_sw]).
   - apply frame_remove_stream.
+  - apply frame_refl.
 Qed.
 
 Lemma open_enrolled_stream_event h e c :
@@ -376,7 +377,7 @@ Lemma invA_step hist r e : wf (hist ++ [e]) -> InvA hist r -> InvA (hist ++ [e])
 Proof.
   intros Hwf HI. destruct (stream_event e) eqn:Hs.
   - eapply invA_frame; [apply frame_stream_event, Hs|exact Hs|exact HI].
-  - destruct e as [c pe cl|c|s p|s|s|s|p s]; cbn in Hs; try discriminate.
+  - destruct e as [c pe cl|c|s p|s|s|s|p s|bp]; cbn in Hs; try discriminate.
     + unfold step, step_with, add_peer. destruct cl; cbn [fst].
       * apply invA_enrol_closed, HI.
       * apply invA_enrol_open; assumption.
@@ -668,7 +669,7 @@ Qed.
 Lemma invB_step hist r e :
   wf (hist ++ [e]) -> InvA hist r -> InvB hist r -> InvB (hist ++ [e]) (step r e).
 Proof.
-  intros Hwf HA HB. destruct e as [c pe cl|c|s p|s|s|s|p s]; unfold step, step_with.
+  intros Hwf HA HB. destruct e as [c pe cl|c|s p|s|s|s|p s|bp]; unfold step, step_with.
   - unfold add_peer. destruct cl; cbn [fst]; [apply invB_extend, HB|].
     apply invB_same with (r := r); try exact HB.
     + eapply enrol_open_streams; eassumption.
@@ -707,6 +708,7 @@ Proof.
     + apply invB_end; [exact HB|]. intros p0. unfold running. rewrite Es. reflexivity.
     + apply invB_end; [exact HB|]. intros p0. unfold running. rewrite Es. reflexivity.
   - apply invB_remove_stream, HB.
+  - apply invB_extend, HB.
 Qed.
 
 (* --- all reachable states ------------------------------------------------------------------------ *)
@@ -858,7 +860,7 @@ Lemma notes_other_events evs e : wf (evs ++ [e]) ->
 Proof.
   intros Hwf Hne. rewrite run_snoc. destruct (stream_event e) eqn:Hs.
   - destruct (frame_stream_event (run evs) e Hs) as (_ & _ & _ & _ & H & _). exact H.
-  - destruct e as [c pe cl|c|s p|s|s|s|p s]; cbn in Hs; try discriminate.
+  - destruct e as [c pe cl|c|s p|s|s|s|p s|bp]; cbn in Hs; try discriminate.
     + unfold step, step_with, add_peer, add_peer_open. destruct cl; [reflexivity|].
       destruct (has _ _); reflexivity.
     + exfalso. exact (Hne c eq_refl).
@@ -994,7 +996,7 @@ Lemma open_not_reported evs c : w3 evs -> open_enrolled evs c = true -> reported
 Proof.
   induction evs as [|e l IH] using rev_ind; intros Hw; [reflexivity|].
   rewrite open_enrolled_snoc, reported_closed_snoc. specialize (IH (w3_prefix _ _ Hw)).
-  destruct e as [c' pe cl|c'|s p|s|s|s|p s]; cbn [open_after]; try (rewrite orb_false_r; exact IH).
+  destruct e as [c' pe cl|c'|s p|s|s|s|p s|bp]; cbn [open_after]; try (rewrite orb_false_r; exact IH).
   - destruct (conn_eqb c c' && negb cl) eqn:E; [|rewrite orb_false_r; exact IH].
     intros _. rewrite orb_false_r. apply andb_true_iff in E. destruct E as [E1 E2].
     apply conn_eqb_eq in E1. subst c'. destruct cl; [discriminate|].
@@ -1013,3 +1015,13 @@ Example stale_without_w3 :
   registered (run [ConnClosed (1, 0); Enrol (1, 0) pe1 false]) 1 = true /\
   truly_open [ConnClosed (1, 0); Enrol (1, 0) pe1 false] (1, 0) = false.
 Proof. split; reflexivity. Qed.
+
+(* --- blocking a peer leaves the registry alone ----------------------------------------------------- *)
+Lemma block_anchors :
+  Generated.c14_block_calls_remove_peer = false /\ Generated.c14_block_calls_get_peer = false.
+Proof. split; reflexivity. Qed.
+Lemma block_is_noop r p : step r (BlockPeer p) = r.
+Proof. reflexivity. Qed.
+Lemma block_keeps_everything evs p :
+  run (evs ++ [BlockPeer p]) = run evs.
+Proof. rewrite run_snoc. reflexivity. Qed.
